@@ -122,3 +122,35 @@ neutral('n-helper-log', H,
         "            # Track active operations and check system overload\n",
         "            logger.debug('tracking')\n            # Track active operations and check system overload\n",
         'added log line in retry wrapper')
+
+# ================================================================================================ C02
+mut('c02-lifo-base', 'C02', ['C02.1'], S,
+    "class CleanShutdownQueue(asyncio.Queue[QueueEntryType]):", "class CleanShutdownQueue(asyncio.LifoQueue[QueueEntryType]):",
+    'queue becomes LIFO')
+mut('c02-override-get', 'C02', ['C02.1'], S,
+    "        return super().get_nowait()\n", "        item = self._queue.pop()\n        return item\n",
+    'get_nowait takes from the tail')
+mut('c02-appendleft', 'C02', ['C02.2'], S,
+    "                self.event_queue.put_nowait(event)\n", "                self.event_queue._queue.appendleft(event)\n",
+    'enqueue at the head through the raw deque')
+mut('c02-second-enqueue', 'C02', ['C02.2'], S,
+    "        # Clear event history and handlers if requested (for memory cleanup)\n        if clear:\n",
+    "        if self.event_queue and self.events_pending:\n            self.event_queue.put_nowait(self.events_pending[0])\n        # Clear event history and handlers if requested (for memory cleanup)\n        if clear:\n",
+    'stop() re-enqueues an event outside dispatch')
+mut('c02-runloop-spawns-step', 'C02', ['C02.3'], S,
+    "                    _processed_event = await self.step()\n", "                    _processed_event = asyncio.create_task(self.step())\n                    await asyncio.sleep(0)\n",
+    'run loop spawns concurrent steps')
+mut('c02-step-spawns-process', 'C02', ['C02.3'], S,
+    "                await self.process_event(event, timeout=timeout)\n", "                await asyncio.shield(asyncio.ensure_future(self.process_event(event, timeout=timeout)))\n",
+    'step no longer awaits process_event in place')
+mut('c02-always-parallel', 'C02', ['C02.3'], S,
+    "        if self.parallel_handlers:\n            handler_tasks", "        if self.parallel_handlers or len(applicable_handlers) > 3:\n            handler_tasks",
+    'handlers run as tasks without parallel_handlers')
+mut('c02-new-unlocked-dequeue', 'C02', ['C02.4'], S,
+    "        queue_size = self.event_queue.qsize() if self.event_queue else 0\n        if queue_size or self.events_pending or self.events_started:\n",
+    "        queue_size = self.event_queue.qsize() if self.event_queue else 0\n        if queue_size and self.event_queue:\n            _dropped = self.event_queue.get_nowait()\n            await self.process_event(_dropped)\n        if queue_size or self.events_pending or self.events_started:\n",
+    'a new dequeue site outside the lock (must be a new key, not absorbed by the known finding)')
+mut('c02-inline-without-lock-test', 'C02', ['C02.4'], M,
+    "            if not self.event_completed_signal.is_set() and inside_handler_context.get() and holds_global_lock.get():",
+    "            if not self.event_completed_signal.is_set() and inside_handler_context.get():",
+    'inline loop dequeues without knowing the lock is held')
